@@ -79,6 +79,7 @@ std::string plan_to_json(const Plan &p, bool pretty) {
 		if (o.input >= 0) jint(s, "input", o.input, first);
 		if (o.kind == INIT_DATASET) { jnum(s, "start", o.start, first); jnum(s, "count", o.count, first); }
 		if (!o.fault.empty()) { s += ",\"fault\":["; for (size_t k = 0; k < o.fault.size(); ++k) { snprintf(buf, sizeof buf, "%s%d", k ? "," : "", o.fault[k]); s += buf; } s += "]"; }
+		if (!o.pfault.empty()) { s += ",\"pfault\":["; for (size_t k = 0; k < o.pfault.size(); ++k) { snprintf(buf, sizeof buf, "%s%d", k ? "," : "", o.pfault[k]); s += buf; } s += "]"; }
 		if (o.env >= 0) jint(s, "env", o.env, first);
 		if (o.heap) jint(s, "heap", o.heap, first);
 		if (o.expect_null) s += ",\"null\":true";
@@ -119,6 +120,7 @@ bool plan_from_json(const rt::JVal &j, Plan &p, std::string &err) {
 		o.key = (int)e.num("key", -1); o.input = (int)e.num("input", -1);
 		o.start = e.u64("start"); o.count = e.u64("count");
 		if (auto f = e.get("fault")) for (auto &x : f->a) o.fault.push_back((int)x.i);
+		if (auto f = e.get("pfault")) for (auto &x : f->a) o.pfault.push_back((int)x.i);
 		o.env = e.num("env", -1); o.heap = (int)e.num("heap");
 		if (auto n = e.get("null")) o.expect_null = n->t == rt::JVal::BOOL && n->b;
 		p.ops.push_back(o);
@@ -130,7 +132,7 @@ bool plan_from_json(const rt::JVal &j, Plan &p, std::string &err) {
 uint64_t plan_shape_hash(const Plan &p) {
 	uint64_t h = 0x1234;
 	for (auto &o : p.ops) {
-		h = rt::mix64(h, (uint64_t)o.kind | ((uint64_t)o.flags << 8) | ((uint64_t)o.task << 24) | ((uint64_t)(o.fault.empty() ? 0 : o.fault[0]) << 32) | ((uint64_t)(o.heap & 7) << 44));
+		h = rt::mix64(h, (uint64_t)o.kind | ((uint64_t)o.flags << 8) | ((uint64_t)o.task << 24) | ((uint64_t)(o.fault.empty() ? 0 : o.fault[0]) << 32) | ((uint64_t)(o.heap & 7) << 44) | ((uint64_t)(o.pfault.empty() ? 0 : o.pfault[0] & 7) << 48));
 		if (o.kind == INIT_DATASET) h = rt::mix64(h, (o.count < 4 ? o.count : 4 + (o.count & 3)));
 	}
 	return h;
@@ -206,7 +208,8 @@ Annotated annotate(const Plan &p, uint64_t N) {
 		auto needc = [&](int c) { return c >= 0 && c < MAXC; };
 		auto needd = [&](int d) { return d >= 0 && d < MAXD; };
 		auto needv = [&](int v) { return v >= 0 && v < MAXV; };
-		if (!o.fault.empty() && !(o.kind == ALLOC_CACHE || o.kind == ALLOC_DATASET || o.kind == CREATE_VM)) return fail(i, "fault on a non-creating call");
+		if (!o.fault.empty() && !(o.kind == ALLOC_CACHE || o.kind == ALLOC_DATASET || o.kind == CREATE_VM || o.kind == HASH || o.kind == FIRST || o.kind == NEXT || o.kind == LAST || o.kind == COMMIT))
+			return fail(i, "allocation fault on a call that is not generated with faults");
 		if (o.expect_null && o.fault.empty()) return fail(i, "expect_null without fault");
 		if (o.env >= 0 && !(o.kind == HASH || o.kind == FIRST || o.kind == NEXT || o.kind == LAST)) return fail(i, "environment on a non-hash call");
 		switch (o.kind) {
